@@ -453,7 +453,12 @@ class Function:
         """look through value-preserving casts"""
         while isinstance(ref, str):
             ins = self.insts.get(ref)
-            if ins is None or ins.op not in self.PASS_OPS:
+            if ins is None:
+                break
+            if ins.op == 'phi' and len(ins.d['incoming']) == 1:
+                ref = ins.d['incoming'][0][0]
+                continue
+            if ins.op not in self.PASS_OPS:
                 break
             ref = ins.ops[0]
         if isinstance(ref, dict) and ref.get('ce') in ('bitcast', 'ptrtoint', 'inttoptr'):
